@@ -634,7 +634,7 @@ func c12RunSys(ctx *Ctx, c c12SysCase) {
 
 func TestC12(t *testing.T) {
 	r := newRec("C12",
-		fmt.Sprintf("a resource case is one generated resource of any R4 type: ≤ 15 nodes of message types not asked about before in this process plus ≤ 25 sampled nodes of its JSON tree (addressed by fully indexed paths) × 12 (quick) / 40 (thorough) type specifiers drawn from %d texts = {146 resource names, %d datatype names, 19 primitive names in both cases, Element, BackboneElement, Resource, DomainResource, Any, Quantity} × {unqualified, FHIR., System.} ∪ invalid specifiers; each evaluates `x is T` and `x as T`.  An exhaustive stage forces every top-level element of every R4 resource type to be populated once and asks that node (and up to five below it) about its own hierarchy.  A second, exhaustive stage puts a value of each of the 49 datatypes allowed in Extension.value[x] (uuid, oid, canonical, markdown, Age, Count, … which hardly occur elsewhere) into an extension and asks every datatype and primitive name about it; a third asks every specifier about 22 literals and function results of every System type.  non-trivial = T is valid and is a strict ancestor of, or unrelated to, the declared type; distinct = FNV-64 of (resource, source)", len(c12Specs), len(datatypeNames)),
+		fmt.Sprintf("a resource case is one generated resource of any R4 type (a quarter of the cases compiled with compopts.Permissive(), where field steps hand choice wrappers on unopened and `is`/`as` look through them themselves; nodes behind references and contained resources are skipped there): ≤ 15 nodes of message types not asked about before in this process plus ≤ 25 sampled nodes of its JSON tree (addressed by fully indexed paths) × 12 (quick) / 40 (thorough) type specifiers drawn from %d texts = {146 resource names, %d datatype names, 19 primitive names in both cases, Element, BackboneElement, Resource, DomainResource, Any, Quantity} × {unqualified, FHIR., System.} ∪ invalid specifiers; each evaluates `x is T` and `x as T`.  An exhaustive stage forces every top-level element of every R4 resource type to be populated once and asks that node (and up to five below it) about its own hierarchy.  A second, exhaustive stage puts a value of each of the 49 datatypes allowed in Extension.value[x] (uuid, oid, canonical, markdown, Age, Count, … which hardly occur elsewhere) into an extension and asks every datatype and primitive name about it; a third asks every specifier about 22 literals and function results of every System type.  non-trivial = T is valid and is a strict ancestor of, or unrelated to, the declared type; distinct = FNV-64 of (resource, source)", len(c12Specs), len(datatypeNames)),
 		"declared types come from the proto annotations (fhir_structure_definition_url, fhir_valueset_url, schema position), the R4 hierarchy from a hand-written table", "BackboneElement ancestry of the eight datatypes R4 derives from BackboneElement, and of components nested in datatypes, is not asserted")
 	runProperty(t, r,
 		Stage[c12SysCase]{Name: "system-values", Enum: c12EnumSys, Run: c12RunSys},
